@@ -668,3 +668,49 @@ def rule_itermut(tree: Tree) -> RuleResult:
                                                f"{f.qualname}: `for … in {base[:80]}` {src(hits[0], 60) if hits else ''} modifies the list being iterated: the element after each removed one is skipped "
                                                f"(e.g. three buffered CRYPTO frames arriving in reverse order are never reassembled)", f.module.line(n)))
     return r
+
+
+def rule_crypto_reassembly(tree: Tree) -> RuleResult:
+    r = RuleResult("CRY", "CRYPTO reassembly per direction and packet-number space: buffer the frame, sort by offset, consume every frame whose offset equals the expected offset "
+                          "(append data, advance by its length, drop it), then parse the contiguous bytes")
+    f = tree.func("quic.quic_tls_parser", "QuicTlsSession.update_session")
+    m = f.module
+    cfg = cfg_of(f.node)
+    for d, truth in (("server", True), ("client", False)):
+        r.instances += 1
+        buf = f"self.{d}_frame_buffer[frame.src_packet.packet_type]"
+        nodes = {}
+        for n in cfg.nodes:
+            if not fact_holds(cfg.facts_at(n.id), "frame.src_packet.isserver", truth):
+                continue
+            t = src(n.ast, 300) if n.ast is not None else ""
+            if n.kind == "stmt" and t == f"{buf}.append(frame)":
+                nodes["append"] = n
+            elif n.kind == "stmt" and t == f"{buf}.sort(key=lambda x: x.offset)":
+                nodes["sort"] = n
+            elif n.kind == "for" and buf in src(n.ast.iter, 300):
+                nodes["scan"] = n
+            elif n.kind == "stmt" and t == f"self.handle_buffer({truth})":
+                nodes["parse"] = n
+            elif n.kind == "if" and src(n.ast.test, 300) == f"crypto_frame.offset == self.{d}_offset[frame.src_packet.packet_type]":
+                nodes["match"] = n
+        ok = all(k in nodes for k in ("append", "sort", "scan", "parse", "match"))
+        if ok:
+            ok = cfg.dominates(nodes["append"].id, nodes["sort"].id) and cfg.dominates(nodes["sort"].id, nodes["scan"].id) and cfg.dominates(nodes["scan"].id, nodes["parse"].id) \
+                and nodes["parse"].id not in cfg.loop_body_nodes(nodes["scan"].id)
+            body = [src(s2, 300) for s2 in nodes["match"].ast.body]
+            want = [f"self.{d}_buffer[frame.src_packet.packet_type] += crypto_frame.crypto", f"self.{d}_offset[frame.src_packet.packet_type] += crypto_frame.crypto_length",
+                    f"{buf}.remove(crypto_frame)"]
+            ok = ok and body == want and not nodes["match"].ast.orelse
+        r.ob(ok, Finding("CRY", f"quic.quic_tls_parser:QuicTlsSession.update_session:{d}-reassembly",
+                         f"update_session ({d} arm): the new CRYPTO frame must be buffered *before* the buffer is sorted by offset and scanned; a frame is consumed iff its offset equals the "
+                         f"expected offset (data appended, offset advanced by its length, frame removed); then handle_buffer({truth}) — out-of-order ClientHello fragments are otherwise never completed",
+                         m.line(f.node)))
+    # handle_buffer: message framing type(1) length(3)
+    hb = tree.func("quic.quic_tls_parser", "QuicTlsSession.handle_buffer")
+    r.instances += 1
+    txt = src(hb.node, 4000)
+    ok = "record_len = int.from_bytes(buffer[1:4], 'big', signed=False)" in txt and "if len(buffer) < 4 + record_len:" in txt and "self.handle_record(buffer[0], buffer[:4 + record_len])" in txt \
+        and "buffer = buffer[4 + record_len:]" in txt and "if len(buffer) <= 4:" in txt
+    r.ob(ok, Finding("CRY", "quic.quic_tls_parser:QuicTlsSession.handle_buffer:framing", "handshake messages are framed as type(1) length(3) body; a message is handed on only when complete and then removed from the buffer", hb.module.line(hb.node)))
+    return r
